@@ -262,7 +262,7 @@ string<A> tdigest<T, A>::to_string(bool print_centroids) const {
 
 // assumes that there is enough room in the input buffer to add centroids from this tdigest
 template<typename T, typename A>
-void tdigest<T, A>::merge(vector_centroid& buffer, W weight) {
+void tdigest<T, A>::merge(vector_centroid& buffer, uint64_t weight) {
   std::copy(centroids_.begin(), centroids_.end(), std::back_inserter(buffer));
   centroids_.clear();
   std::stable_sort(buffer.begin(), buffer.end(), centroid_cmp());
